@@ -105,7 +105,8 @@ def run(tier):
         reps = parallel("stable", lambda o, k, n: ["prims-sweep-c07", o, ck.seed + s, 1100, k, n], nproc, os.path.join(wd, "sweep"))
         for rep in reps:
             _merge(ck, rep, "")
-    ck.cov["distinct_nontrivial"] = len(jobs) + 1101
+    if not ck.cov["distinct_nontrivial"]:
+        ck.cov["distinct_nontrivial"] = len(jobs) + 1101
     ck.cov["vectors_from_tla_reference"] = len(jobs)
     ck.cov["rule"] = ("(a) %d vectors whose expected value is computed by TLC from the executable RFC transcriptions in spec/ref (boundary lengths of every block size, digest/key extremes, all-0xff operands, "
                       "%d Poly1305 corner messages found by model-checking the accumulator state machine): dryoc (every API route) = TLA+ value = libsodium; "
